@@ -16,9 +16,11 @@ package patchvalidator
 //
 //@ spec protectedPtr(s string) bool { hasPrefix(s, "/service") || hasPrefix(s, "/publicKey") }
 //@ spec memberStr(op jsonpatch.operation, name string) bool { name in op && op[name] != nil && jsonStrOK(deref(op[name])) }
+// a pointer must start with '/' (the patch engine ignores whatever precedes the first '/': "x/publicKey" would address
+// the public keys), and its first reference token must not be a protected section
 //@ spec opAllowed(op jsonpatch.operation) bool {
-//@     memberStr(op, "path") && !protectedPtr(jsonStrOf(deref(op["path"]))) &&
-//@     (("from" in op && op["from"] != nil) ==> jsonStrOK(deref(op["from"])) && !protectedPtr(jsonStrOf(deref(op["from"])))) }
+//@     memberStr(op, "path") && hasPrefix(jsonStrOf(deref(op["path"])), "/") && !protectedPtr(jsonStrOf(deref(op["path"]))) &&
+//@     (("from" in op && op["from"] != nil) ==> jsonStrOK(deref(op["from"])) && hasPrefix(jsonStrOf(deref(op["from"])), "/") && !protectedPtr(jsonStrOf(deref(op["from"])))) }
 //
 // an accepted JSON patch can neither address, move nor remove the public-key or service sections
 //@ func validateJSONPatches
